@@ -330,7 +330,7 @@ Section Ideal.
 
   Lemma client_accepts_checks c s :
     client_accepts suite_ok cmin cmax c_extra_ok c s = VOk ->
-    cmin <= sh_version s <= cmax /\ In (sh_suite s) (ch_suites c) /\ suite_ok (sh_version s) (sh_suite s) = true /\
+    cmin <= sh_version s /\ In (sh_suite s) (ch_suites c) /\ suite_ok (sh_version s) (sh_suite s) = true /\
     (sh_version s > TLS12 -> sh_sid s = ch_sid c).
   Proof.
     unfold client_accepts, client_sh_check. cbv zeta.
